@@ -26,6 +26,8 @@ fn main() {
             "sl-dump" => sl::run_dump(&toks),
             "sl-look" => sl::run_look(&toks),
             "codeid" => fuzz::run_codeid(&toks),
+            "cidrt" => fuzz::run_cidrt(&toks),
+            "names" => fuzz::run_names(&toks),
             "bpfuzz" => fuzz::run_bpfuzz(&toks),
             _ => panic!("unknown mode"),
         };
